@@ -166,6 +166,13 @@ def srvRun : SrvLts.St → List (List SrvLts.Act) → List String → SrvLts.St 
         else s3
       srvRun s4 rest (res :: acc)
 
+def teeLine (k ops : String) : Option String := do
+  let f ← if k == "-" then some none else k.toNat?.map some
+  let l ← mapM? parseTeeOp (splitList ops)
+  let fails : Nat → Bool := fun i => match f with | none => false | some n => decide (n ≤ i)
+  let r := Tee.run false fails 0 Tee.init l
+  pure s!"{joinList (r.2.map showTeeRes)} {joinList (r.1.wire.map showTeeItem)} {showBool r.1.outClosed} {r.1.attempts}"
+
 def handle (args : List String) : Option String :=
   match args with
   | ["srv", acts] => do
@@ -183,12 +190,8 @@ def handle (args : List String) : Option String :=
     let r := Framing.run true f (Hist.init true) l
     let s := r.1
     pure s!"{joinList (r.2.map showRes)} {joinList ((Framing.wire true f s).map showTag)} {showBool s.outClosed}{showBool s.inClosed} {showRet s.serve}"
-  | ["tee", k, ops] => do
-    let f ← if k == "-" then some none else k.toNat?.map some
-    let l ← mapM? parseTeeOp (splitList ops)
-    let fails : Nat → Bool := fun i => match f with | none => false | some n => decide (n ≤ i)
-    let r := Tee.run false fails 0 Tee.init l
-    pure s!"{joinList (r.2.map showTeeRes)} {joinList (r.1.wire.map showTeeItem)} {showBool r.1.outClosed} {r.1.attempts}"
+  | ["tee", k, ops] => teeLine k ops
+  | ["teer", k, ops] => teeLine k ops   -- the tee'd session in the receiving role: same model
   | ["wdl", ops] => do
     let l ← mapM? parseWdOp (splitList ops)
     let r := WdHist.run true WdHist.init l
